@@ -2222,7 +2222,13 @@ def _translate_all(ctx):
             try:
                 arities[lean_name] = _arity(obj)
                 text = Fn(ctx, lean_name, obj).translate()
+                missing = _missing_runtime(text)
+                if missing:
+                    # containment: a call the run-time has no primitive for must not reach the Lean build (it would
+                    # take the whole driver, and with it every property, down); the function becomes a stub instead
+                    raise Unsupported("no run-time primitive " + ", ".join(missing))
             except Unsupported as ex:
+                text = None
                 err = f"unsupported: {ex}"
             except Exception as ex:
                 err = f"translator failure: {type(ex).__name__}: {ex}"
@@ -2240,6 +2246,40 @@ def _translate_all(ctx):
             info[lean_name] = {"supported": True}
         defs[lean_name] = text
     return defs, info, arities
+
+
+_RUNTIME_NAMES = None
+
+
+def _runtime_names():
+    """every name the run-time files define (definitions, structures, constructors), by namespace-free spelling"""
+    global _RUNTIME_NAMES
+    if _RUNTIME_NAMES is None:
+        import re as _re
+        from pathlib import Path as _Path
+        names = set()
+        root = _Path(__file__).resolve().parent.parent.parent / "lean" / "PkgModel"
+        for f in ("PyRt.lean", "PyRx.lean", "PyObj.lean"):
+            fp = root / f
+            if not fp.exists():
+                continue
+            txt = fp.read_text()
+            for m in _re.finditer(r"^\s*(?:@\[[^\]]*\]\s*)?(?:private\s+|protected\s+|partial\s+|noncomputable\s+)*"
+                                  r"(?:def|abbrev|structure|inductive|class|instance|opaque|theorem)\s+([^\s:({\[]+)", txt, _re.M):
+                names.add(m.group(1).split(".")[-1].strip("«»"))
+            for m in _re.finditer(r"^\s*\|\s*([A-Za-z_][\w']*)", txt, _re.M):
+                names.add(m.group(1))
+        _RUNTIME_NAMES = names
+    return _RUNTIME_NAMES
+
+
+def _missing_runtime(text):
+    import re as _re
+    known = _runtime_names()
+    if not known:
+        return []
+    used = set(_re.findall(r"\bPy(?:Rt|Rx|Obj)\.([A-Za-z_][\w']*)", text))
+    return sorted(u for u in used if u not in known)
 
 
 def _assemble(ctx, defs, info, arities):
